@@ -259,23 +259,6 @@ Fixpoint canon (first : bool) (cur : setting) (ip : ipath) : spath :=
       end
   end.
 
-(* Setting::getPath(): __constructPath *)
-Fixpoint cpp_path_from (first : bool) (cur : setting) (ip : ipath) : bytes :=
-  match ip with
-  | [] => []
-  | i :: q =>
-      match nth_error (s_kids cur) i with
-      | Some k =>
-          (if first then [] else [46]) ++
-          (match s_name k with
-           | Some nm => nm
-           | None => [91] ++ show_dec (Z.of_nat i) ++ [93]
-           end) ++ cpp_path_from false k q
-      | None => []
-      end
-  end.
-Definition cpp_path (root : setting) (ip : ipath) : bytes := cpp_path_from true root ip.
-
 Lemma render_canon first cur ip : render (canon first cur ip) = cpp_path_from first cur ip.
 Proof.
   revert first cur; induction ip as [|i q IH]; intros first cur; cbn [canon cpp_path_from render]; [reflexivity|].
